@@ -103,6 +103,23 @@ def scheduleCopy (s : Screen) (c : Client) (copyRegion : Region) (dx dy : Int) :
     else m2
   { c with M := m3, C := c2, dx := dx, dy := dy }
 
+/-- `rfbSetCursor` for one client: a client without cursor-shape updates gets the rectangle of the
+OLD cursor and then of the NEW cursor (both where the cursor is painted for it) marked modified
+(`rfbRedrawAfterHideCursor(cl, NULL)` before and after the switch); every client's
+`cursorWasChanged` is raised -/
+def setCursor (sOld sNew : Screen) (c : Client) : Client :=
+  let c1 := if !c.cursorShape then
+      (match cursorBox sOld c.cursorX c.cursorY with
+       | some r => markRegion c r
+       | none => c)
+    else c
+  let c2 := { c1 with cursorChanged := true }
+  if !c.cursorShape then
+    (match cursorBox sNew c2.cursorX c2.cursorY with
+     | some r => markRegion c2 r
+     | none => c2)
+  else c2
+
 def u16 (x : Int) : Int := x % 65536
 
 /-- `rectSwapIfLEAndClip` for an unscaled client: fields are uint16_t, comparisons are done in
